@@ -25,7 +25,7 @@ depth 4.  Leaf helpers that call nothing back (`pause`, `_continuation`, `Failur
 
 User code is data: `Cb` for callbacks (all installed with `addBoth`, except `fire` which is what
 `chainDeferred` installs), `Item` for the body of a generator / coroutine
-(`for d in items: try: r = yield d | await d; except Exception: r = -1; probe()` then `return 7`).
+(`for d in items: try: r = yield d | await d | yield <not a Deferred>; except Exception: r = -1; probe()` then `return 7`).
 `probe` records the depth of its own frame.
 
 Recursion is by fuel (one unit per modelled call or loop iteration); running out sets `oof`.
@@ -73,6 +73,7 @@ structure Dfd where
 inductive Item where
   | yieldD (i : Nat)          -- `r = yield d_i`
   | awaitD (i : Nat)          -- `r = await d_i`   (`yield from d_i` in a generator)
+  | yieldV (v : Int)          -- `r = yield v` with `v` NOT a Deferred (`None` is 0): sent straight back
   deriving Repr, DecidableEq, Inhabited
 
 structure Gen where
@@ -106,6 +107,7 @@ inductive Act where
   | yld (i : Nat)     -- yielded Deferred `i`
   | ret (v : Int)     -- StopIteration(v)
   | oof
+  | plain (v : Int)   -- yielded something that is neither a Deferred nor a coroutine
   deriving Repr, DecidableEq
 
 /-- `while True:` of the generator body from the head item on; generator frame at depth `gd`.
@@ -117,6 +119,7 @@ def genNext : (fuel : Nat) → (gd g : Nat) → St → St × Act
     match G.items with
     | [] => (st, .ret 7)
     | .yieldD i :: _ => (st, .yld i)
+    | .yieldV v :: _ => (st, .plain v)
     | .awaitD i :: rest =>
       let d := st.get i
       if d.paused ≠ 0 ∨ d.result = .none then (st, .yld i)
@@ -133,6 +136,9 @@ def genRun (fuel : Nat) (gd : Nat) (r : Res) (g : Nat) (st : St) : St × Act :=
   else match G.items with
     | [] => (st, .ret 7)
     | .yieldD _ :: rest =>
+      let st := (st.enter (gd+1)).log (gd+1)
+      genNext fuel gd g (st.setGen g { G with items := rest })
+    | .yieldV _ :: rest =>
       let st := (st.enter (gd+1)).log (gd+1)
       genNext fuel gd g (st.setGen g { G with items := rest })
     | .awaitD _ :: rest =>
@@ -252,6 +258,7 @@ def iloop : (fuel : Nat) → (D w : Nat) → Res → (g : Nat) → St → St × 
     match act with
     | .oof => (st, false)
     | .ret v => fireD f (D+1) (st.getGen g).out (.val v) st
+    | .plain v => iloop f D w (.val v) g st                  -- `isDeferred` is false: round the `while 1:` again
     | .yld i =>
       -- `result.addBoth(_gotResultInlineCallbacks, waiting, gen, status, context)` frame D+1
       let d := st.get i
@@ -339,5 +346,12 @@ def prefiredHeap (n : Nat) (fails : Nat → Bool) (coroutine : Bool) : St :=
                 out := n }] }
 
 def prefiredOps (n : Nat) : List Op := [.start 0, .add n .probe]
+
+/-- a generator that yields `n` things that are not Deferreds (`r = yield 5`, a probe after each);
+    Deferred 0 is the Deferred the inlineCallbacks call returns -/
+def plainHeap (n : Nat) : St :=
+  { heap := #[{}], gens := #[{ items := List.replicate n (Item.yieldV 5), out := 0 }] }
+
+def plainOps : List Op := [.start 0, .add 0 .probe]
 
 end Twisted.Defer.Depth
